@@ -1,0 +1,192 @@
+//go:build verif
+
+// Contracts (structured comments) and ghost lemma functions for package label.
+// Compiled only with -tags=verif; checked by /verif/bin/govc. Property C17.
+package label
+
+//@ func validateName(name) (err)
+//@   pure
+//@   reveal validName
+//@   ensures [iff_charclass] err == nil <==> validName(name)
+//@ loop #1
+//@   invariant [prefix_ok] 0 <= pos() && pos() <= len(name) && (forall j int :: 0 <= j && j < pos() ==> cls(code(name, j)))
+
+//@ func ParseTargetLabel(packagePath, label) (l, err)
+//@   pure
+//@   reveal validName
+//@   ensures [relative]   hasPrefix(label, ":") ==>
+//@                        (err == nil <==> validName(label[1:])) &&
+//@                        (err == nil ==> l.Name == label[1:] && l.Package == ite(packagePath == ".", "", packagePath))
+//@   ensures [bad_prefix] !hasPrefix(label, ":") && !hasPrefix(label, "//") ==> err != nil
+//@   ensures [explicit]   hasPrefix(label, "//") && idx(label[2:], ":") >= 0 ==>
+//@                        (err == nil <==> validName(label[2:][idx(label[2:], ":")+1:])) &&
+//@                        (err == nil ==> l.Package == label[2:][:idx(label[2:], ":")] && l.Name == label[2:][idx(label[2:], ":")+1:])
+//@   ensures [shorthand]  hasPrefix(label, "//") && idx(label[2:], ":") < 0 ==>
+//@                        (err == nil <==> label[2:] != "" && validName(lastSeg(label[2:]))) &&
+//@                        (err == nil ==> l.Package == label[2:] && l.Name == lastSeg(label[2:]))
+//@   ensures [err_zero]   err != nil ==> l.Package == "" && l.Name == ""
+
+//@ func (TargetLabel).String(t) (s)
+//@   pure
+//@   ensures [canon] s == "//" + t.Package + ":" + t.Name
+
+//@ func (TargetLabel).CanBeShortened(t) (r)
+//@   pure
+//@   ensures [iff_last_segment] r <==> t.Name == lastSeg(t.Package)
+
+//@ func ParseTargetPattern(currentPackage, pattern) (p, err)
+//@   pure
+//@   ensures [relative_needs_colon] !hasPrefix(pattern, "//") && !contains(pattern, ":") ==> err != nil
+//@   ensures [relative] !hasPrefix(pattern, "//") && contains(pattern, ":") ==>
+//@        (err == nil <==> (pattern[idx(pattern, ":")+1:] == "..." || validName(pattern[idx(pattern, ":")+1:]))) &&
+//@        (err == nil ==> p.prefix == currentPackage && p.targetPattern == pattern[idx(pattern, ":")+1:] && !p.recursive)
+//@   ensures [abs_ok]        hasPrefix(pattern, "//") ==> (err == nil <==> absPatOK(pattern))
+//@   ensures [abs_recursive] hasPrefix(pattern, "//") && err == nil ==> (p.recursive <==> patEi(pattern) >= 0)
+//@   ensures [abs_prefix]    hasPrefix(pattern, "//") && err == nil ==>
+//@        p.prefix == stripSlash(ite(patEi(pattern) >= 0, patPkgPart(pattern)[:patEi(pattern)], patPkgPart(pattern)))
+//@   ensures [abs_target]    hasPrefix(pattern, "//") && err == nil ==>
+//@        p.targetPattern == ite(patEi(pattern) < 0 && patCi(pattern) < 0, lastSeg(patPkgPart(pattern)), patTgt(pattern))
+//@   ensures [not_partial]   err == nil ==> !p.isPrefixPartial
+
+//@ func (TargetPattern).Matches(p, t) (m)
+//@   pure
+//@   ensures [spec] m <==> ite(p.recursive, p.prefix == "" || t.Package == p.prefix || hasPrefix(t.Package, p.prefix + "/"), t.Package == p.prefix) &&
+//@                        (p.targetPattern == "" || p.targetPattern == "all" || p.targetPattern == "..." || t.Name == p.targetPattern)
+
+//@ func (TargetPattern).String(p) (s)
+//@   pure
+//@   ensures [canon] s == "//" + p.prefix + ite(p.recursive, ite(p.prefix != "", "/...", "..."), "") + ite(p.targetPattern != "", ":" + p.targetPattern, "")
+
+//@ func TargetPatternFromLabel(label) (p)
+//@   pure
+//@   ensures [exact] p.prefix == label.Package && p.targetPattern == label.Name && !p.recursive && !p.isPrefixPartial
+
+//@ func GetMatchAllTargetPattern() (p)
+//@   pure
+//@   ensures [all] p.prefix == "" && p.recursive && p.targetPattern == "" && !p.isPrefixPartial
+
+// ---------------------------------------------------------------------------------------------
+// Ghost lemma functions: the sentences of property C17, proved over the contracts above
+// (calls are replaced by the callee's contract, never by its body).
+
+//@ func lemma_label_roundtrip(q, pkg, name) (l, err)
+//@   requires [printable] !contains(pkg, ":") && validName(name)
+//@   ensures  [same_label] err == nil && l.Package == pkg && l.Name == name
+
+func lemma_label_roundtrip(q, pkg, name string) (TargetLabel, error) {
+	return ParseTargetLabel(q, TargetLabel{Package: pkg, Name: name}.String())
+}
+
+//@ func lemma_shorthand(q, b) (l1, e1, l2, e2)
+//@   requires [no_colon] b != "" && !contains(b, ":")
+//@   ensures  [same] (e1 == nil <==> e2 == nil) && (e1 == nil ==> l1.Package == l2.Package && l1.Name == l2.Name && l1.Package == b && l1.Name == lastSeg(b))
+
+func lemma_shorthand(q, b string) (TargetLabel, error, TargetLabel, error) {
+	l1, e1 := ParseTargetLabel(q, "//"+b)
+	l2, e2 := ParseTargetLabel(q, "//"+b+":"+lastSegGhost(b))
+	return l1, e1, l2, e2
+}
+
+//@ func lastSegGhost(p) (r)
+//@   pure
+//@   trusted
+//@   ensures [def] r == lastSeg(p)
+
+func lastSegGhost(p string) string {
+	i := len(p)
+	for i > 0 && p[i-1] != '/' {
+		i--
+	}
+	return p[i:]
+}
+
+//@ func lemma_relative(p, x) (l1, e1, l2, e2)
+//@   requires [no_colon] !contains(p, ":")
+//@   ensures  [same] (e1 == nil <==> e2 == nil) && (e1 == nil ==> l1.Package == l2.Package && l1.Name == l2.Name && l1.Name == x && l1.Package == ite(p == ".", "", p))
+
+func lemma_relative(p, x string) (TargetLabel, error, TargetLabel, error) {
+	l1, e1 := ParseTargetLabel(p, ":"+x)
+	abs := p
+	if p == "." {
+		abs = ""
+	}
+	l2, e2 := ParseTargetLabel("irrelevant", "//"+abs+":"+x)
+	return l1, e1, l2, e2
+}
+
+//@ func lemma_recursive_boundary(q, pre, t) (m, err)
+//@   requires [wf_prefix] pre != "" && !contains(pre, ":") && !contains(pre, "...")
+//@   ensures  [component_boundary] err == nil && (m <==> t.Package == pre || hasPrefix(t.Package, pre + "/"))
+
+func lemma_recursive_boundary(q, pre string, t TargetLabel) (bool, error) {
+	p, err := ParseTargetPattern(q, "//"+pre+"/...")
+	if err != nil {
+		return false, err
+	}
+	return p.Matches(t), nil
+}
+
+//@ func lemma_root_recursive(q, t) (m, err)
+//@   ensures  [matches_everything] err == nil && m
+
+func lemma_root_recursive(q string, t TargetLabel) (bool, error) {
+	p, err := ParseTargetPattern(q, "//...")
+	if err != nil {
+		return false, err
+	}
+	return p.Matches(t), nil
+}
+
+//@ func lemma_all_exact(q, pkg, t) (m, err)
+//@   requires [wf_pkg] !contains(pkg, ":") && !contains(pkg, "...") && !hasSuffix(pkg, "/")
+//@   ensures  [exact_package] err == nil && (m <==> t.Package == pkg)
+
+func lemma_all_exact(q, pkg string, t TargetLabel) (bool, error) {
+	p, err := ParseTargetPattern(q, "//"+pkg+":all")
+	if err != nil {
+		return false, err
+	}
+	return p.Matches(t), nil
+}
+
+//@ func lemma_name_exact(q, pkg, n, t) (m, err)
+//@   requires [wf] !contains(pkg, ":") && !contains(pkg, "...") && !hasSuffix(pkg, "/") && n != "" && n != "all" && n != "..."
+//@   ensures  [exact_name] err == nil && (m <==> t.Package == pkg && t.Name == n)
+
+func lemma_name_exact(q, pkg, n string, t TargetLabel) (bool, error) {
+	p, err := ParseTargetPattern(q, "//"+pkg+":"+n)
+	if err != nil {
+		return false, err
+	}
+	return p.Matches(t), nil
+}
+
+//@ func lemma_recursive_name(q, pre, n, t) (m, err)
+//@   requires [wf] pre != "" && !contains(pre, ":") && !contains(pre, "...") && n != "" && n != "all" && n != "..."
+//@   ensures  [boundary_and_name] err == nil && (m <==> (t.Package == pre || hasPrefix(t.Package, pre + "/")) && t.Name == n)
+
+func lemma_recursive_name(q, pre, n string, t TargetLabel) (bool, error) {
+	p, err := ParseTargetPattern(q, "//"+pre+"/...:"+n)
+	if err != nil {
+		return false, err
+	}
+	return p.Matches(t), nil
+}
+
+//@ func lemma_pattern_roundtrip(cur, s, t) (parsed, reparsed, m1, m2)
+//@   requires [wf_label] wfPkg(t.Package) && validName(t.Name)
+//@   requires [wf_current] wfPkg(cur) && !contains(cur, "...")
+//@   ensures  [reparses] parsed ==> reparsed
+//@   ensures  [same_matches] parsed && reparsed ==> (m1 <==> m2)
+
+func lemma_pattern_roundtrip(cur, s string, t TargetLabel) (parsed, reparsed, m1, m2 bool) {
+	p, err := ParseTargetPattern(cur, s)
+	if err != nil {
+		return false, false, false, false
+	}
+	p2, err2 := ParseTargetPattern(cur, p.String())
+	if err2 != nil {
+		return true, false, false, false
+	}
+	return true, true, p.Matches(t), p2.Matches(t)
+}
